@@ -5,6 +5,10 @@ Part A: `splitlinesAux` (CPython's splitlines) and concatenation.
 Part B: the loop of `reverse_iter_lines`.
 Part C: the regex scan of `iter_splitlines` against `splitlinesAux`.
 Part D: `JSONLIterator` (`consume`).
+Part E: joining lines and splitting them again (`indent`).
+Part F: UTF-8 well-formedness of the lines of a well-formed content.
+Part G: cutting a content at a line break (`rel_seek`).
+Part H: UTF-8 decoding commutes with the split (text mode).
 -/
 namespace C19
 
@@ -209,28 +213,31 @@ theorem linesOf_append_key (b l0 : List Nat) (rest : List (List Nat))
   rw [aux_append_key bytesBreak bytesBreak_10 b l0 rest h hl0 p false]
   simp
 
-theorem take_block (c : List Nat) (bs pos : Nat) :
-    c.take (pos - min bs pos) ++ block c bs pos = c.take pos := by
-  unfold block
-  have h : pos = (pos - min bs pos) + min bs pos := by omega
+theorem take_blk (c : List Nat) (n pos : Nat) (hn : n ≤ pos) :
+    c.take (pos - n) ++ blk c n pos = c.take pos := by
+  unfold blk
+  have h : pos = (pos - n) + n := by omega
   conv => rhs; rw [h, List.take_add]
 
-/-- the loop invariant: whatever is still to come is the reversed lines of (unread prefix ++ buff) -/
-theorem revLoop_spec (c : List Nat) (bs : Nat) (hbs : 1 ≤ bs) (f pos : Nat) (buff : List Nat)
-    (hf : pos ≤ f) : revLoop c bs f pos buff = (linesOf (c.take pos ++ buff)).reverse := by
+/-- the loop invariant, for EVERY read schedule with reads of at least one byte: whatever is still
+    to come is the reversed lines of (unread prefix ++ buff) -/
+theorem revLoopS_spec (c : List Nat) (rs : Nat → Nat) (hrs : ∀ p, 1 ≤ rs p) (f pos : Nat) (buff : List Nat)
+    (hf : pos ≤ f) : revLoopS c rs f pos buff = (linesOf (c.take pos ++ buff)).reverse := by
   induction f generalizing pos buff with
   | zero =>
     have : pos = 0 := by omega
     subst this
-    simp [revLoop, flush_eq]
+    simp [revLoopS, flush_eq]
   | succ f ih =>
-    rw [revLoop]
+    rw [revLoopS]
     split
     · next h0 => subst h0; simp [flush_eq]
     · next h0 =>
-      have hlt : pos - min bs pos ≤ f := by omega
-      have hsplit : c.take pos ++ buff = c.take (pos - min bs pos) ++ (block c bs pos ++ buff) := by
-        rw [← List.append_assoc, take_block]
+      have h1 := hrs pos
+      have hlt : pos - min (rs pos) pos ≤ f := by omega
+      have hsplit : c.take pos ++ buff =
+          c.take (pos - min (rs pos) pos) ++ (blk c (min (rs pos) pos) pos ++ buff) := by
+        rw [← List.append_assoc, take_blk _ _ _ (Nat.min_le_right _ _)]
       split
       · next l0 l1 ls hsp =>
         split
@@ -240,6 +247,16 @@ theorem revLoop_spec (c : List Nat) (bs : Nat) (hbs : 1 ≤ bs) (f pos : Nat) (b
           simp only [List.reverse_append]
           split <;> simp
       · rw [ih _ _ hlt, hsplit]
+
+theorem revLoop_spec (c : List Nat) (bs : Nat) (hbs : 1 ≤ bs) (f pos : Nat) (buff : List Nat)
+    (hf : pos ≤ f) : revLoop c bs f pos buff = (linesOf (c.take pos ++ buff)).reverse :=
+  revLoopS_spec c (fun _ => bs) (fun _ => hbs) f pos buff hf
+
+theorem alignedRead_pos (bs : Nat) (hbs : 1 ≤ bs) (p : Nat) : 1 ≤ alignedRead bs p := by
+  unfold alignedRead
+  split
+  · exact hbs
+  · omega
 
 /-! the loop's `linesOf` is the statement's LF- or CRLF-separated lines when no CR stands alone -/
 
@@ -572,19 +589,19 @@ theorem scan_pieces (n : Nat) (s : List Nat) (hn : s.length ≤ n) :
 
 variable {α ε : Type}
 
-theorem consume_nil (parse : List Nat → Except ε α) (ig : Bool) : consume parse ig [] = ([], none) := by
+theorem consume_nil (ws : Nat → Bool) (parse : List Nat → Except ε α) (ig : Bool) : consume ws parse ig [] = ([], none) := by
   simp [consume]
 
-theorem consume_ignore (parse : List Nat → Except ε α) (ls : List (List Nat)) :
-    consume parse true ls = (ls.filterMap (objOf parse), none) := by
+theorem consume_ignore (ws : Nat → Bool) (parse : List Nat → Except ε α) (ls : List (List Nat)) :
+    consume ws parse true ls = (ls.filterMap (objOf ws parse), none) := by
   induction ls with
   | nil => simp [consume]
   | cons l ls ih =>
     rw [consume]
-    by_cases hb : lstrip l = []
+    by_cases hb : lineNorm ws l = []
     · simp [hb, ih, objOf]
     · simp only [hb, if_false]
-      cases hp : parse (lstrip l) with
+      cases hp : parse (lineNorm ws l) with
       | ok v => simp [ih, objOf, hb, hp]
       | error e => simp [ih, objOf, hb, hp]
 
@@ -596,46 +613,80 @@ inductive RelL : List (List Nat) → List (List Nat) → Prop
   | nil : RelL [] []
   | cons {x y xs ys} (h : Rel x y) (t : RelL xs ys) : RelL (x :: xs) (y :: ys)
 
-theorem lstrip_append_ws (y e : List Nat) (he : ∀ c ∈ e, pyWs c = true) :
-    (lstrip y = [] ∧ lstrip (y ++ e) = []) ∨ (lstrip y ≠ [] ∧ lstrip (y ++ e) = lstrip y ++ e) := by
+theorem lineEnd_10 : lineEnd 10 = true := by decide
+theorem lineEnd_13 : lineEnd 13 = true := by decide
+
+theorem dropWhile_append_all (p : Nat → Bool) (a b : List Nat) (ha : ∀ c ∈ a, p c = true) :
+    (a ++ b).dropWhile p = b.dropWhile p := by
+  induction a with
+  | nil => rfl
+  | cons c cs ih =>
+    have hc : p c = true := ha c (by simp)
+    simp only [List.cons_append, List.dropWhile_cons, hc, if_true]
+    exact ih (fun d hd => ha d (by simp [hd]))
+
+theorem rstripBy_append_all (rs : Nat → Bool) (z e : List Nat) (he : ∀ c ∈ e, rs c = true) :
+    rstripBy rs (z ++ e) = rstripBy rs z := by
+  unfold rstripBy
+  rw [List.reverse_append, dropWhile_append_all rs _ _ (by simpa using he)]
+
+theorem rstripBy_all (rs : Nat → Bool) (e : List Nat) (he : ∀ c ∈ e, rs c = true) :
+    rstripBy rs e = [] := by
+  have := rstripBy_append_all rs [] e he
+  simpa [rstripBy] using this
+
+/-- a run of end-of-line characters after the line does not change `line.lstrip().rstrip(..)`,
+    WHATEVER set `.lstrip()` strips -/
+theorem normBy_append (ws rs : Nat → Bool) (y e : List Nat) (he : ∀ c ∈ e, rs c = true) :
+    rstripBy rs (lstripBy ws (y ++ e)) = rstripBy rs (lstripBy ws y) := by
   induction y with
   | nil =>
-    left
-    refine ⟨rfl, ?_⟩
-    simp only [List.nil_append, lstrip]
-    induction e with
-    | nil => rfl
-    | cons a as iha =>
-      have ha : pyWs a = true := he a (by simp)
-      simp only [List.dropWhile_cons, ha, if_true]
-      exact iha (fun c hc => he c (by simp [hc]))
+    have h1 : rstripBy rs (lstripBy ws ([] ++ e)) = [] := by
+      apply rstripBy_all
+      intro c hc
+      exact he c ((List.dropWhile_suffix ws).subset hc)
+    rw [h1]
+    simp [lstripBy, rstripBy]
   | cons c cs ih =>
-    by_cases hc : pyWs c = true
-    · simp only [lstrip, List.cons_append, List.dropWhile_cons, hc, if_true] at ih ⊢
+    by_cases hc : ws c = true
+    · simp only [lstripBy, List.cons_append, List.dropWhile_cons, hc, if_true] at ih ⊢
       exact ih
-    · right
-      simp [lstrip, List.dropWhile_cons, hc]
+    · simp only [lstripBy, List.cons_append, List.dropWhile_cons, hc]
+      exact rstripBy_append_all rs (c :: cs) e he
 
-theorem objOf_rel (parse : List Nat → Except ε α) (hp : IgnoresBreak parse) (x y : List Nat)
-    (h : Rel x y) : objOf parse x = objOf parse y := by
-  have key : ∀ e : List Nat, (∀ c ∈ e, pyWs c = true) → (∀ z, parse (z ++ e) = parse z) →
-      objOf parse (y ++ e) = objOf parse y := by
-    intro e he hpe
-    rcases lstrip_append_ws y e he with ⟨h1, h2⟩ | ⟨h1, h2⟩
-    · simp [objOf, h1, h2]
-    · have : lstrip y ++ e ≠ [] := by simp [h1]
-      simp [objOf, h1, h2, this, hpe]
+theorem lineNorm_rel (ws : Nat → Bool) (x y : List Nat) (h : Rel x y) : lineNorm ws x = lineNorm ws y := by
+  unfold lineNorm
   rcases h with rfl | rfl | rfl
   · rfl
-  · exact key [10] (by decide) (fun z => (hp z).1)
-  · exact key [13, 10] (by decide) (fun z => (hp z).2)
+  · exact normBy_append _ _ _ _ (by intro c hc; simp at hc; subst hc; exact lineEnd_10)
+  · apply normBy_append
+    intro c hc
+    simp at hc
+    rcases hc with rfl | rfl
+    · exact lineEnd_13
+    · exact lineEnd_10
 
-theorem filterMap_rel (parse : List Nat → Except ε α) (hp : IgnoresBreak parse)
+theorem lineNorm_nil (ws : Nat → Bool) : lineNorm ws [] = [] := by
+  simp [lineNorm, lstripBy, rstripBy]
+
+/-- a line of characters that `.lstrip()` strips is blank -/
+theorem lineNorm_blank (ws : Nat → Bool) (l : List Nat) (h : ∀ c ∈ l, ws c = true) : lineNorm ws l = [] := by
+  have : lstripBy ws l = [] := by
+    unfold lstripBy
+    have := dropWhile_append_all ws l [] h
+    simpa using this
+  simp [lineNorm, this, rstripBy]
+
+theorem objOf_rel (ws : Nat → Bool) (parse : List Nat → Except ε α) (x y : List Nat)
+    (h : Rel x y) : objOf ws parse x = objOf ws parse y := by
+  simp [objOf, lineNorm_rel ws x y h]
+
+theorem filterMap_rel (ws : Nat → Bool) (parse : List Nat → Except ε α)
     (xs ys : List (List Nat)) (h : RelL xs ys) :
-    xs.filterMap (objOf parse) = ys.filterMap (objOf parse) := by
+    xs.filterMap (objOf ws parse) = ys.filterMap (objOf ws parse) := by
   induction h with
   | nil => rfl
-  | cons hxy _ ih => simp [List.filterMap_cons, objOf_rel parse hp _ _ hxy, ih]
+  | cons hxy _ ih => simp [List.filterMap_cons, objOf_rel ws parse _ _ hxy, ih]
 
 theorem rel_consHead (c : Nat) (xs ys : List (List Nat)) (h : RelL xs ys) :
     RelL (consHead c xs) (consHead c ys) := by
@@ -714,27 +765,27 @@ theorem fileLinesB'_rel (c : List Nat) (h : noLoneCR c = true) : RelL (fileLines
     simp only [sepLines, hcd, h10, if_false]
     exact rel_consHead _ _ _ (ih (noLoneCR_tail _ _ _ h))
 
-theorem objOf_nil (parse : List Nat → Except ε α) : objOf parse [] = none := by
-  simp [objOf, lstrip]
+theorem objOf_nil (ws : Nat → Bool) (parse : List Nat → Except ε α) : objOf ws parse [] = none := by
+  simp [objOf, lineNorm_nil ws]
 
-theorem filterMap_fileLinesB' (parse : List Nat → Except ε α) (c : List Nat) :
-    (fileLinesB' c).filterMap (objOf parse) = (fileLinesB c).filterMap (objOf parse) := by
+theorem filterMap_fileLinesB' (ws : Nat → Bool) (parse : List Nat → Except ε α) (c : List Nat) :
+    (fileLinesB' c).filterMap (objOf ws parse) = (fileLinesB c).filterMap (objOf ws parse) := by
   unfold fileLinesB'
   split <;> simp [List.filterMap_append, objOf_nil]
 
-theorem filterMap_linesOf (parse : List Nat → Except ε α) (c : List Nat) :
-    (linesOf c).filterMap (objOf parse) = (bytesSplitlines c).filterMap (objOf parse) := by
+theorem filterMap_linesOf (ws : Nat → Bool) (parse : List Nat → Except ε α) (c : List Nat) :
+    (linesOf c).filterMap (objOf ws parse) = (bytesSplitlines c).filterMap (objOf ws parse) := by
   unfold linesOf
   split <;> simp [List.filterMap_append, objOf_nil]
 
 /-- a line that does not stop a strict (`ignore_errors=False`) iteration: blank or decodable -/
-def OkLine (parse : List Nat → Except ε α) (l : List Nat) : Prop :=
-  lstrip l = [] ∨ ∃ v, parse (lstrip l) = .ok v
+def OkLine (ws : Nat → Bool) (parse : List Nat → Except ε α) (l : List Nat) : Prop :=
+  lineNorm ws l = [] ∨ ∃ v, parse (lineNorm ws l) = .ok v
 
-def AllOk (parse : List Nat → Except ε α) (ls : List (List Nat)) : Prop := ∀ l ∈ ls, OkLine parse l
+def AllOk (ws : Nat → Bool) (parse : List Nat → Except ε α) (ls : List (List Nat)) : Prop := ∀ l ∈ ls, OkLine ws parse l
 
-theorem consume_strict_of_allOk (parse : List Nat → Except ε α) (ls : List (List Nat))
-    (h : AllOk parse ls) : consume parse false ls = consume parse true ls := by
+theorem consume_strict_of_allOk (ws : Nat → Bool) (parse : List Nat → Except ε α) (ls : List (List Nat))
+    (h : AllOk ws parse ls) : consume ws parse false ls = consume ws parse true ls := by
   induction ls with
   | nil => simp [consume]
   | cons l ls ih =>
@@ -742,24 +793,24 @@ theorem consume_strict_of_allOk (parse : List Nat → Except ε α) (ls : List (
     rw [consume, consume]
     rcases h l (by simp) with hb | ⟨v, hv⟩
     · simp [hb, ih]
-    · by_cases hb : lstrip l = []
+    · by_cases hb : lineNorm ws l = []
       · simp [hb, ih]
       · simp [hb, hv, ih]
 
-theorem allOk_of_consume_strict (parse : List Nat → Except ε α) (ls : List (List Nat))
-    (h : (consume parse false ls).2 = none) : AllOk parse ls := by
+theorem allOk_of_consume_strict (ws : Nat → Bool) (parse : List Nat → Except ε α) (ls : List (List Nat))
+    (h : (consume ws parse false ls).2 = none) : AllOk ws parse ls := by
   induction ls with
   | nil => intro l hl; cases hl
   | cons l ls ih =>
     rw [consume] at h
-    by_cases hb : lstrip l = []
+    by_cases hb : lineNorm ws l = []
     · simp only [hb, if_true] at h
       intro x hx
       rcases List.mem_cons.mp hx with rfl | hx
       · exact Or.inl hb
       · exact ih h x hx
     · simp only [hb, if_false] at h
-      cases hp : parse (lstrip l) with
+      cases hp : parse (lineNorm ws l) with
       | ok v =>
         rw [hp] at h
         intro x hx
@@ -768,31 +819,22 @@ theorem allOk_of_consume_strict (parse : List Nat → Except ε α) (ls : List (
         · exact ih h x hx
       | error e => rw [hp] at h; simp at h
 
-theorem okLine_rel (parse : List Nat → Except ε α) (hp : IgnoresBreak parse) (x y : List Nat)
-    (h : Rel x y) : OkLine parse x ↔ OkLine parse y := by
-  have key : ∀ e : List Nat, (∀ c ∈ e, pyWs c = true) → (∀ z, parse (z ++ e) = parse z) →
-      (OkLine parse (y ++ e) ↔ OkLine parse y) := by
-    intro e he hpe
-    rcases lstrip_append_ws y e he with ⟨h1, h2⟩ | ⟨h1, h2⟩
-    · simp [OkLine, h1, h2]
-    · simp [OkLine, h1, h2, hpe]
-  rcases h with rfl | rfl | rfl
-  · rfl
-  · exact key [10] (by decide) (fun z => (hp z).1)
-  · exact key [13, 10] (by decide) (fun z => (hp z).2)
+theorem okLine_rel (ws : Nat → Bool) (parse : List Nat → Except ε α) (x y : List Nat)
+    (h : Rel x y) : OkLine ws parse x ↔ OkLine ws parse y := by
+  simp [OkLine, lineNorm_rel ws x y h]
 
-theorem allOk_rel (parse : List Nat → Except ε α) (hp : IgnoresBreak parse)
-    (xs ys : List (List Nat)) (h : RelL xs ys) : AllOk parse xs ↔ AllOk parse ys := by
+theorem allOk_rel (ws : Nat → Bool) (parse : List Nat → Except ε α)
+    (xs ys : List (List Nat)) (h : RelL xs ys) : AllOk ws parse xs ↔ AllOk ws parse ys := by
   induction h with
   | nil => rfl
   | cons hxy _ ih =>
     simp only [AllOk, List.mem_cons, forall_eq_or_imp] at ih ⊢
-    rw [okLine_rel parse hp _ _ hxy, ih]
+    rw [okLine_rel ws parse _ _ hxy, ih]
 
-theorem okLine_nil (parse : List Nat → Except ε α) : OkLine parse [] := Or.inl rfl
+theorem okLine_nil (ws : Nat → Bool) (parse : List Nat → Except ε α) : OkLine ws parse [] := Or.inl (lineNorm_nil ws)
 
-theorem allOk_append_nil (parse : List Nat → Except ε α) (xs : List (List Nat)) (b : Bool) :
-    AllOk parse (xs ++ (if b then [[]] else [])) ↔ AllOk parse xs := by
+theorem allOk_append_nil (ws : Nat → Bool) (parse : List Nat → Except ε α) (xs : List (List Nat)) (b : Bool) :
+    AllOk ws parse (xs ++ (if b then [[]] else [])) ↔ AllOk ws parse xs := by
   cases b
   · simp
   · simp only [AllOk, if_true, List.mem_append, List.mem_singleton]
@@ -801,10 +843,10 @@ theorem allOk_append_nil (parse : List Nat → Except ε α) (xs : List (List Na
     · intro h l hl
       rcases hl with hl | rfl
       · exact h l hl
-      · exact okLine_nil parse
+      · exact okLine_nil ws parse
 
-theorem allOk_reverse (parse : List Nat → Except ε α) (xs : List (List Nat)) :
-    AllOk parse xs.reverse ↔ AllOk parse xs := by
+theorem allOk_reverse (ws : Nat → Bool) (parse : List Nat → Except ε α) (xs : List (List Nat)) :
+    AllOk ws parse xs.reverse ↔ AllOk ws parse xs := by
   simp [AllOk]
 
 
@@ -854,5 +896,1005 @@ theorem aux_all_noBrk (brk : Nat → Bool) (f : Bool) (s : List Nat) :
             · exact hb'
             · exact ih false l0 (by rw [hs]; simp) d hd
           · exact ih false l (by rw [hs]; simp [hl])
+
+/-! ### Part E: joining lines and splitting them again (`indent`) -/
+
+theorem aux_eq_nil (brk : Nat → Bool) (f : Bool) (s : List Nat) (h : splitlinesAux brk f s = []) :
+    s = [] ∨ (f = true ∧ s = [10]) := by
+  cases s with
+  | nil => exact Or.inl rfl
+  | cons c cs =>
+    right
+    rw [aux_cons] at h
+    by_cases h1 : (f && c == 10) = true
+    · simp only [h1, if_true] at h
+      have hcs : cs = [] := by
+        by_cases hcs : cs = []
+        · exact hcs
+        · exact absurd h (aux_ne_nil brk cs hcs)
+      simp at h1
+      exact ⟨h1.1, by rw [h1.2, hcs]⟩
+    · have h1' : (f && c == 10) = false := by simpa using h1
+      simp only [h1', Bool.false_eq_true, if_false] at h
+      by_cases hb : brk c = true
+      · simp [hb] at h
+      · simp only [hb, if_false] at h
+        exact absurd h (consHead_ne_nil _ _)
+
+theorem consHead_ne_singleton_nil (c : Nat) (x : List (List Nat)) : consHead c x ≠ [[]] := by
+  cases x <;> simp [consHead]
+
+/-- a split that consists of one empty line comes from a text that is one line break -/
+theorem aux_singleton_nil (brk : Nat → Bool) (hb10 : brk 10 = true) (f : Bool) (s : List Nat)
+    (h : splitlinesAux brk f s = [[]]) : lastIs brk s = true := by
+  induction s generalizing f with
+  | nil => simp [aux_nil] at h
+  | cons c cs ih =>
+    rw [aux_cons] at h
+    by_cases h1 : (f && c == 10) = true
+    · simp only [h1, if_true] at h
+      have := ih false h
+      cases cs with
+      | nil => simp [lastIs] at this
+      | cons d ds => simpa [lastIs] using this
+    · have h1' : (f && c == 10) = false := by simpa using h1
+      simp only [h1', Bool.false_eq_true, if_false] at h
+      by_cases hb : brk c = true
+      · simp only [hb, if_true] at h
+        have h2 : splitlinesAux brk (c == 13) cs = [] := by simpa using h
+        rcases aux_eq_nil brk _ cs h2 with rfl | ⟨_, rfl⟩
+        · simpa [lastIs] using hb
+        · simpa [lastIs] using hb10
+      · simp only [hb, if_false] at h
+        exact absurd h (consHead_ne_singleton_nil _ _)
+
+/-- a break-free line followed by LF is the first line of the split -/
+theorem aux_line_lf (brk : Nat → Bool) (hb10 : brk 10 = true) (l R : List Nat) (hl : NoBrk brk l) :
+    splitlinesAux brk false (l ++ 10 :: R) = l :: splitlinesAux brk false R := by
+  induction l with
+  | nil =>
+    simp only [List.nil_append]
+    rw [aux_cons]
+    simp [hb10]
+  | cons c cs ih =>
+    have hc : brk c = false := hl c (by simp)
+    simp only [List.cons_append]
+    rw [aux_cons, ih (fun d hd => hl d (by simp [hd]))]
+    simp [hc, consHead]
+
+theorem joinWith_eq_nil (sep : List Nat) (hsep : sep ≠ []) (ls : List (List Nat))
+    (h : joinWith sep ls = []) : ls = [] ∨ ls = [[]] := by
+  match ls, h with
+  | [], _ => exact Or.inl rfl
+  | [l], h => right; simp [joinWith] at h; rw [h]
+  | l :: l' :: rest, h => simp [joinWith, hsep] at h
+
+/-- the eight-form split plus the final empty line, on which `iterSplitlines` is characterised -/
+def splitFin (t : List Nat) : List (List Nat) :=
+  eightSplitlines t ++ (if endsWithBreak t then [[]] else [])
+
+theorem splitFin_nil : splitFin [] = [] := by
+  simp [splitFin, eightSplitlines, aux_nil, endsWithBreak, lastIs]
+
+theorem splitFin_ne_singleton_nil (t : List Nat) : splitFin t ≠ [[]] := by
+  intro h
+  unfold splitFin at h
+  by_cases he : endsWithBreak t = true
+  · simp only [he, if_true] at h
+    have h0 : eightSplitlines t = [] := by
+      cases hx : eightSplitlines t with
+      | nil => rfl
+      | cons a as => rw [hx] at h; simp at h
+    have ht : t = [] := by
+      by_cases ht : t = []
+      · exact ht
+      · exact absurd h0 (aux_ne_nil _ t ht)
+    subst ht
+    simp [endsWithBreak, lastIs] at he
+  · have he' : endsWithBreak t = false := by simpa using he
+    rw [he'] at h
+    simp only [Bool.false_eq_true, if_false, List.append_nil] at h
+    exact he (aux_singleton_nil lineBreakChar lineBreakChar_10 false t h)
+
+/-- splitting `'\n'.join(ls)` gives `ls` back, for break-free lines (`ls = ['']` excepted: it joins
+    to the empty text, which has no lines) -/
+theorem splitFin_join (ls : List (List Nat)) (hb : ∀ l ∈ ls, NoBrk lineBreakChar l) (hne : ls ≠ [[]]) :
+    splitFin (joinWith [10] ls) = ls := by
+  match ls, hb, hne with
+  | [], _, _ => simp [joinWith, splitFin_nil]
+  | [l], hb, hne =>
+    have hl : l ≠ [] := by intro h; subst h; exact hne rfl
+    have hn : NoBrk lineBreakChar l := hb l (by simp)
+    have he : endsWithBreak l = false := lastIs_false_of_all _ _ hn
+    simp [joinWith, splitFin, he, eightSplitlines, aux_noBrk lineBreakChar lineBreakChar_10 l hl hn false]
+  | l :: l' :: rest, hb, _ =>
+    have hn : NoBrk lineBreakChar l := hb l (by simp)
+    have hb' : ∀ x ∈ l' :: rest, NoBrk lineBreakChar x := fun x hx => hb x (by simp [hx])
+    have hj : joinWith [10] (l :: l' :: rest) = l ++ 10 :: joinWith [10] (l' :: rest) := by
+      simp [joinWith]
+    rw [hj]
+    unfold splitFin eightSplitlines
+    rw [aux_line_lf lineBreakChar lineBreakChar_10 l _ hn]
+    by_cases hR : joinWith [10] (l' :: rest) = []
+    · rcases joinWith_eq_nil [10] (by simp) _ hR with h | h
+      · cases h
+      · rw [hR, h]
+        simp [aux_nil, endsWithBreak, lastIs_append, lastIs, lineBreakChar]
+    · have hne' : l' :: rest ≠ [[]] := by
+        intro h; rw [h] at hR; exact hR rfl
+      have ih := splitFin_join (l' :: rest) hb' hne'
+      have he : endsWithBreak (l ++ 10 :: joinWith [10] (l' :: rest)) =
+          endsWithBreak (joinWith [10] (l' :: rest)) := by
+        unfold endsWithBreak
+        rw [show l ++ 10 :: joinWith [10] (l' :: rest) = (l ++ [10]) ++ joinWith [10] (l' :: rest) by simp,
+          lastIs_append _ _ _ hR]
+      rw [he]
+      unfold splitFin eightSplitlines at ih
+      rw [List.cons_append, ih]
+
+/-! ### Part F: UTF-8 well-formedness survives the split (text mode) -/
+
+theorem isCont_ascii (x : Nat) (hx : x < 128) : isCont x = false := by
+  simp [isCont]; omega
+
+theorem validUtf8G_cons (sp : Bool) (b : Nat) (rest : List Nat) :
+    validUtf8G sp (b :: rest) =
+      if b < 128 then validUtf8G sp rest
+      else if (194 ≤ b && b ≤ 223) = true then
+        match rest with
+        | c1 :: r => isCont c1 && validUtf8G sp r
+        | _ => false
+      else if (224 ≤ b && b ≤ 239) = true then
+        match rest with
+        | c1 :: c2 :: r =>
+          isCont c1 && isCont c2 && (b != 224 || 160 ≤ c1) && (b != 237 || sp || c1 ≤ 159) && validUtf8G sp r
+        | _ => false
+      else if (240 ≤ b && b ≤ 244) = true then
+        match rest with
+        | c1 :: c2 :: c3 :: r =>
+          isCont c1 && isCont c2 && isCont c3 && (b != 240 || 144 ≤ c1) && (b != 244 || c1 ≤ 143)
+            && validUtf8G sp r
+        | _ => false
+      else false := by
+  rw [validUtf8G.eq_def]
+  all_goals rfl
+
+theorem validUtf8G_ascii_cons (sp : Bool) (x : Nat) (hx : x < 128) (b : List Nat) :
+    validUtf8G sp (x :: b) = validUtf8G sp b := by
+  rw [validUtf8G_cons]; simp [hx]
+
+/-- cutting a well-formed byte string at an ASCII byte leaves two well-formed strings -/
+theorem validUtf8G_split (sp : Bool) (n : Nat) : ∀ a : List Nat, a.length ≤ n → ∀ (x : Nat) (b : List Nat),
+    x < 128 → validUtf8G sp (a ++ x :: b) = true → validUtf8G sp a = true ∧ validUtf8G sp b = true := by
+  induction n with
+  | zero =>
+    intro a ha x b hx h
+    have : a = [] := List.length_eq_zero_iff.mp (by omega)
+    subst this
+    rw [List.nil_append, validUtf8G_ascii_cons sp x hx] at h
+    exact ⟨by simp [validUtf8G], h⟩
+  | succ n ih =>
+    intro a ha x b hx h
+    have hcx := isCont_ascii x hx
+    match a, ha with
+    | [], _ =>
+      rw [List.nil_append, validUtf8G_ascii_cons sp x hx] at h
+      exact ⟨by simp [validUtf8G], h⟩
+    | h0 :: t, ha =>
+      simp only [List.cons_append] at h
+      rw [validUtf8G_cons] at h
+      rw [validUtf8G_cons]
+      by_cases c1 : h0 < 128
+      · simp only [c1, if_true] at h ⊢
+        exact ih t (by simp at ha; omega) x b hx h
+      · simp only [c1, if_false] at h ⊢
+        by_cases c2 : (194 ≤ h0 && h0 ≤ 223) = true
+        · simp only [c2, if_true] at h ⊢
+          match t, ha with
+          | [], _ => simp [hcx] at h
+          | d1 :: t', ha =>
+            simp only [List.cons_append, Bool.and_eq_true] at h ⊢
+            obtain ⟨i1, i2⟩ := ih t' (by simp at ha; omega) x b hx h.2
+            exact ⟨⟨h.1, i1⟩, i2⟩
+        · simp only [c2, Bool.false_eq_true, if_false] at h ⊢
+          by_cases c3 : (224 ≤ h0 && h0 ≤ 239) = true
+          · simp only [c3, if_true] at h ⊢
+            match t, ha with
+            | [], _ => cases b <;> simp [hcx] at h
+            | [d1], _ => simp [hcx] at h
+            | d1 :: d2 :: t', ha =>
+              simp only [List.cons_append, Bool.and_eq_true] at h ⊢
+              obtain ⟨i1, i2⟩ := ih t' (by simp at ha; omega) x b hx h.2
+              exact ⟨⟨h.1, i1⟩, i2⟩
+          · simp only [c3, Bool.false_eq_true, if_false] at h ⊢
+            by_cases c4 : (240 ≤ h0 && h0 ≤ 244) = true
+            · simp only [c4, if_true] at h ⊢
+              match t, ha with
+              | [], _ => rcases b with _ | ⟨_, _ | ⟨_, _⟩⟩ <;> simp [hcx] at h
+              | [d1], _ => cases b <;> simp [hcx] at h
+              | [d1, d2], _ => simp [hcx] at h
+              | d1 :: d2 :: d3 :: t', ha =>
+                simp only [List.cons_append, Bool.and_eq_true] at h ⊢
+                obtain ⟨i1, i2⟩ := ih t' (by simp at ha; omega) x b hx h.2
+                exact ⟨⟨h.1, i1⟩, i2⟩
+            · simp [c4] at h
+
+/-- the first line of a split, and what the rest is the split of -/
+theorem aux_first_decomp (brk : Nat → Bool) (s l0 : List Nat) (rest : List (List Nat))
+    (h : splitlinesAux brk false s = l0 :: rest) :
+    (s = l0 ∧ rest = []) ∨
+    ∃ x b2, s = l0 ++ x :: b2 ∧ brk x = true ∧ rest = splitlinesAux brk (x == 13) b2 := by
+  induction s generalizing l0 rest with
+  | nil => simp [aux_nil] at h
+  | cons c cs ih =>
+    rw [aux_cons] at h
+    simp only [Bool.false_and, Bool.false_eq_true, if_false] at h
+    by_cases hc : brk c = true
+    · simp only [hc, if_true] at h
+      obtain ⟨h1, h2⟩ := List.cons.inj h
+      right
+      exact ⟨c, cs, by rw [← h1]; rfl, hc, h2.symm⟩
+    · simp only [hc, if_false] at h
+      cases hs : splitlinesAux brk false cs with
+      | nil =>
+        rw [hs] at h
+        simp only [consHead] at h
+        obtain ⟨h1, h2⟩ := List.cons.inj h
+        have hcs : cs = [] := by
+          by_cases hcs : cs = []
+          · exact hcs
+          · exact absurd hs (aux_ne_nil brk cs hcs)
+        left
+        exact ⟨by rw [hcs, ← h1], h2.symm⟩
+      | cons l ls =>
+        rw [hs] at h
+        simp only [consHead] at h
+        obtain ⟨h1, h2⟩ := List.cons.inj h
+        rcases ih l ls hs with ⟨e1, e2⟩ | ⟨x, b2, e1, e2, e3⟩
+        · left
+          exact ⟨by rw [← h1, e1], by rw [← h2, e2]⟩
+        · right
+          exact ⟨x, b2, by rw [← h1, e1]; rfl, e2, by rw [← h2, e3]⟩
+
+/-- every line of a well-formed byte string split at ASCII bytes is well-formed: no line ends or
+    begins inside a multi-byte character -/
+theorem aux_lines_valid (sp : Bool) (brk : Nat → Bool) (hb : ∀ x, brk x = true → x < 128) (n : Nat) :
+    ∀ (s : List Nat) (f : Bool), s.length ≤ n → validUtf8G sp s = true →
+      ∀ l ∈ splitlinesAux brk f s, validUtf8G sp l = true := by
+  induction n with
+  | zero =>
+    intro s f hs _ l hl
+    have : s = [] := List.length_eq_zero_iff.mp (by omega)
+    subst this
+    simp [aux_nil] at hl
+  | succ n ih =>
+    intro s f hs hv l hl
+    -- the lines of `s` read with the flag off
+    have key : ∀ l ∈ splitlinesAux brk false s, validUtf8G sp l = true := by
+      intro l hl
+      cases hsp : splitlinesAux brk false s with
+      | nil => rw [hsp] at hl; cases hl
+      | cons l0 rest =>
+        rw [hsp] at hl
+        rcases aux_first_decomp brk s l0 rest hsp with ⟨e1, e2⟩ | ⟨x, b2, e1, e2, e3⟩
+        · subst e2
+          have : l = l0 := by simpa using hl
+          rw [this, ← e1]; exact hv
+        · rw [e1] at hv
+          obtain ⟨v1, v2⟩ := validUtf8G_split sp l0.length l0 (Nat.le_refl _) x b2 (hb x e2) hv
+          rcases List.mem_cons.mp hl with rfl | hl
+          · exact v1
+          · rw [e3] at hl
+            have hlen : b2.length ≤ n := by
+              have := congrArg List.length e1
+              simp at this
+              omega
+            exact ih b2 _ hlen v2 l hl
+    cases s with
+    | nil => simp [aux_nil] at hl
+    | cons c cs =>
+      by_cases h1 : (f && c == 10) = true
+      · rw [aux_cons] at hl
+        simp only [h1, if_true] at hl
+        have hc : c = 10 := by simp at h1; exact h1.2
+        subst hc
+        have v2 : validUtf8G sp cs = true := by
+          rw [validUtf8G_ascii_cons sp 10 (by decide)] at hv; exact hv
+        exact ih cs false (by simp at hs; omega) v2 l hl
+      · have h1' : (f && c == 10) = false := by simpa using h1
+        have : splitlinesAux brk f (c :: cs) = splitlinesAux brk false (c :: cs) := by
+          rw [aux_cons, aux_cons]; simp [h1']
+        rw [this] at hl
+        exact key l hl
+
+/-! ### Part G: cutting a content at a line break (`rel_seek`) -/
+
+/-- cutting the text in front of a break character `x`: the lines of the whole are the lines of the
+    left part, then possibly one empty line, then the lines after `x` -/
+theorem aux_cut_at_break (brk : Nat → Bool) (x : Nat) (b' : List Nat) (hx : brk x = true) (a : List Nat) :
+    ∀ f, ∃ E : List (List Nat), (E = [] ∨ E = [[]]) ∧
+      splitlinesAux brk f (a ++ x :: b') = splitlinesAux brk f a ++ E ++ splitlinesAux brk (x == 13) b' := by
+  induction a with
+  | nil =>
+    intro f
+    by_cases h1 : (f && x == 10) = true
+    · refine ⟨[], Or.inl rfl, ?_⟩
+      have hx10 : x = 10 := by simp at h1; exact h1.2
+      subst hx10
+      have hf : f = true := by simp at h1; exact h1
+      subst hf
+      simp only [List.nil_append]
+      rw [aux_cons]
+      simp [aux_nil]
+    · have h1' : (f && x == 10) = false := by simpa using h1
+      refine ⟨[[]], Or.inr rfl, ?_⟩
+      simp only [List.nil_append]
+      rw [aux_cons]
+      simp [h1', hx, aux_nil]
+  | cons c cs ih =>
+    intro f
+    simp only [List.cons_append]
+    by_cases h1 : (f && c == 10) = true
+    · obtain ⟨E, hE, h⟩ := ih false
+      refine ⟨E, hE, ?_⟩
+      rw [aux_cons, aux_cons]
+      simp only [h1, if_true]
+      exact h
+    · have h1' : (f && c == 10) = false := by simpa using h1
+      by_cases hc : brk c = true
+      · obtain ⟨E, hE, h⟩ := ih (c == 13)
+        refine ⟨E, hE, ?_⟩
+        rw [aux_cons, aux_cons]
+        simp only [h1', hc, if_true, Bool.false_eq_true, if_false]
+        rw [h]
+        simp
+      · by_cases hcs : cs = []
+        · subst hcs
+          refine ⟨[], Or.inl rfl, ?_⟩
+          rw [aux_cons, aux_cons]
+          simp only [h1', hc, Bool.false_eq_true, if_false, List.nil_append]
+          rw [aux_cons]
+          simp [hx, aux_nil, consHead]
+        · obtain ⟨E, hE, h⟩ := ih false
+          refine ⟨E, hE, ?_⟩
+          rw [aux_cons, aux_cons]
+          simp only [h1', hc, Bool.false_eq_true, if_false]
+          rw [h, List.append_assoc, consHead_append _ _ _ (aux_ne_nil brk cs hcs), List.append_assoc]
+
+theorem filterMap_E (ws : Nat → Bool) (parse : List Nat → Except ε α) (E : List (List Nat)) (hE : E = [] ∨ E = [[]]) :
+    E.filterMap (objOf ws parse) = [] := by
+  rcases hE with rfl | rfl
+  · rfl
+  · simp [objOf_nil]
+
+/-- hence the objects of a content are those of the part before a line break followed by those of
+    the part from the line break on -/
+theorem filterMap_cut_at_break (ws : Nat → Bool) (parse : List Nat → Except ε α) (a : List Nat) (x : Nat) (b' : List Nat)
+    (hx : bytesBreak x = true) :
+    (bytesSplitlines (a ++ x :: b')).filterMap (objOf ws parse) =
+      (bytesSplitlines a).filterMap (objOf ws parse) ++ (bytesSplitlines (x :: b')).filterMap (objOf ws parse) := by
+  unfold bytesSplitlines
+  obtain ⟨E, hE, h⟩ := aux_cut_at_break bytesBreak x b' hx a false
+  rw [h]
+  have h2 : splitlinesAux bytesBreak false (x :: b') = [] :: splitlinesAux bytesBreak (x == 13) b' := by
+    rw [aux_cons]; simp [hx]
+  rw [h2]
+  simp [List.filterMap_append, filterMap_E ws parse E hE, objOf_nil]
+
+theorem firstBreak_spec (s : List Nat) (i : Nat) (h : firstBreak s = some i) :
+    (∃ x b', s.drop i = x :: b' ∧ bytesBreak x = true) ∧ NoBrk bytesBreak (s.take i) := by
+  induction s generalizing i with
+  | nil => simp [firstBreak] at h
+  | cons c cs ih =>
+    rw [firstBreak] at h
+    by_cases hc : bytesBreak c = true
+    · simp only [hc, if_true, Option.some.injEq] at h
+      subst h
+      exact ⟨⟨c, cs, rfl, hc⟩, fun _ hd => by simp at hd⟩
+    · have hc' : bytesBreak c = false := by simpa using hc
+      simp only [hc', Bool.false_eq_true, if_false] at h
+      cases hj : firstBreak cs with
+      | none => rw [hj] at h; simp at h
+      | some j =>
+      rw [hj] at h
+      simp only [Option.map_some, Option.some.injEq] at h
+      subst h
+      obtain ⟨h1, h2⟩ := ih j hj
+      refine ⟨by simpa using h1, ?_⟩
+      intro d hd
+      simp only [List.take_succ_cons, List.mem_cons] at hd
+      rcases hd with rfl | hd
+      · simpa using hc
+      · exact h2 d hd
+
+/-! ### Part H: decoding commutes with splitting (text mode) -/
+
+theorem decodeG_cons (sp : Bool) (b : Nat) (rest : List Nat) :
+    decodeG sp (b :: rest) =
+    if b < 128 then (decodeG sp rest).map (b :: ·)
+    else if (194 ≤ b && b ≤ 223) = true then
+      match rest with
+      | c1 :: r =>
+        if isCont c1 then (decodeG sp r).map (((b - 192) * 64 + (c1 - 128)) :: ·) else none
+      | _ => none
+    else if (224 ≤ b && b ≤ 239) = true then
+      match rest with
+      | c1 :: c2 :: r =>
+        if isCont c1 && isCont c2 && (b != 224 || 160 ≤ c1) && (b != 237 || sp || c1 ≤ 159) then
+          (decodeG sp r).map (((b - 224) * 4096 + (c1 - 128) * 64 + (c2 - 128)) :: ·)
+        else none
+      | _ => none
+    else if (240 ≤ b && b ≤ 244) = true then
+      match rest with
+      | c1 :: c2 :: c3 :: r =>
+        if isCont c1 && isCont c2 && isCont c3 && (b != 240 || 144 ≤ c1) && (b != 244 || c1 ≤ 143) then
+          (decodeG sp r).map (((b - 240) * 262144 + (c1 - 128) * 4096 + (c2 - 128) * 64 + (c3 - 128)) :: ·)
+        else none
+      | _ => none
+    else none := by
+  rw [decodeG.eq_def]
+  all_goals rfl
+
+/-- what decoding `a ++ x :: b` gives when `x` is an ASCII byte -/
+def glue (x : Nat) (a b : Option (List Nat)) : Option (List Nat) :=
+  match a, b with
+  | some a', some b' => some (a' ++ x :: b')
+  | _, _ => none
+
+theorem glue_map_left (x c : Nat) (a b : Option (List Nat)) :
+    (glue x a b).map (c :: ·) = glue x (a.map (c :: ·)) b := by
+  cases a <;> cases b <;> simp [glue]
+
+theorem decodeG_ascii_cons (sp : Bool) (x : Nat) (hx : x < 128) (b : List Nat) :
+    decodeG sp (x :: b) = (decodeG sp b).map (x :: ·) := by
+  rw [decodeG_cons]; simp [hx]
+
+theorem glue_none_left (x : Nat) (b : Option (List Nat)) : glue x none b = none := by
+  cases b <;> rfl
+
+/-- decoding commutes with cutting at an ASCII byte -/
+theorem decodeG_split (sp : Bool) (n : Nat) : ∀ a : List Nat, a.length ≤ n → ∀ (x : Nat) (b : List Nat),
+    x < 128 → decodeG sp (a ++ x :: b) = glue x (decodeG sp a) (decodeG sp b) := by
+  induction n with
+  | zero =>
+    intro a ha x b hx
+    have : a = [] := List.length_eq_zero_iff.mp (by omega)
+    subst this
+    rw [List.nil_append, decodeG_ascii_cons sp x hx]
+    cases decodeG sp b <;> simp [glue, decodeG]
+  | succ n ih =>
+    intro a ha x b hx
+    have hcx := isCont_ascii x hx
+    match a, ha with
+    | [], _ =>
+      rw [List.nil_append, decodeG_ascii_cons sp x hx]
+      cases decodeG sp b <;> simp [glue, decodeG]
+    | h0 :: t, ha =>
+      simp only [List.cons_append]
+      rw [decodeG_cons, decodeG_cons sp h0 t]
+      by_cases c1 : h0 < 128
+      · simp only [c1, if_true]
+        rw [ih t (by simp at ha; omega) x b hx, glue_map_left]
+      · simp only [c1, if_false]
+        by_cases c2 : (194 ≤ h0 && h0 ≤ 223) = true
+        · simp only [c2, if_true]
+          match t, ha with
+          | [], _ => simp [hcx, glue_none_left]
+          | d1 :: t', ha =>
+            simp only [List.cons_append]
+            by_cases k : isCont d1 = true
+            · simp only [k, if_true]
+              rw [ih t' (by simp at ha; omega) x b hx, glue_map_left]
+            · simp [k, glue_none_left]
+        · simp only [c2, Bool.false_eq_true, if_false]
+          by_cases c3 : (224 ≤ h0 && h0 ≤ 239) = true
+          · simp only [c3, if_true]
+            match t, ha with
+            | [], _ => cases b <;> simp [hcx, glue_none_left]
+            | [d1], _ => simp [hcx, glue_none_left]
+            | d1 :: d2 :: t', ha =>
+              simp only [List.cons_append]
+              split
+              · rw [ih t' (by simp at ha; omega) x b hx, glue_map_left]
+              · simp [glue_none_left]
+          · simp only [c3, Bool.false_eq_true, if_false]
+            by_cases c4 : (240 ≤ h0 && h0 ≤ 244) = true
+            · simp only [c4, if_true]
+              match t, ha with
+              | [], _ => rcases b with _ | ⟨_, _ | ⟨_, _⟩⟩ <;> simp [hcx, glue_none_left]
+              | [d1], _ => cases b <;> simp [hcx, glue_none_left]
+              | [d1, d2], _ => simp [hcx, glue_none_left]
+              | d1 :: d2 :: d3 :: t', ha =>
+                simp only [List.cons_append]
+                split
+                · rw [ih t' (by simp at ha; omega) x b hx, glue_map_left]
+                · simp [glue_none_left]
+            · simp [c4, glue_none_left]
+
+/-- one decoding step: the first code point is the first byte if that is ASCII, and otherwise is
+    ≥ 128 and uses up that byte and `k ≥ 1` more bytes, all ≥ 128 -/
+theorem decodeG_step (sp : Bool) (h : Nat) (r l' : List Nat) (hd : decodeG sp (h :: r) = some l') :
+    ∃ cp l'', l' = cp :: l'' ∧
+      ((h < 128 ∧ cp = h ∧ decodeG sp r = some l'') ∨
+       (128 ≤ h ∧ 128 ≤ cp ∧ ∃ k, 1 ≤ k ∧ k ≤ r.length ∧ decodeG sp (r.drop k) = some l'' ∧
+          ∀ c ∈ r.take k, 128 ≤ c)) := by
+  rw [decodeG_cons] at hd
+  by_cases c1 : h < 128
+  · simp only [c1, if_true, Option.map_eq_some_iff] at hd
+    obtain ⟨l'', h1, h2⟩ := hd
+    exact ⟨h, l'', h2.symm, Or.inl ⟨c1, rfl, h1⟩⟩
+  · simp only [c1, if_false] at hd
+    by_cases c2 : (194 ≤ h && h ≤ 223) = true
+    · simp only [c2, if_true] at hd
+      rcases r with _ | ⟨d1, r'⟩
+      · simp at hd
+      · simp only [] at hd
+        by_cases k : isCont d1 = true
+        · simp only [k, if_true, Option.map_eq_some_iff] at hd
+          obtain ⟨l'', h1, h2⟩ := hd
+          simp [isCont] at k c2
+          refine ⟨_, l'', h2.symm, Or.inr ⟨by omega, by omega, 1, by omega, by simp, by simpa using h1, ?_⟩⟩
+          intro c hc; simp at hc; omega
+        · simp [k] at hd
+    · simp only [c2, Bool.false_eq_true, if_false] at hd
+      by_cases c3 : (224 ≤ h && h ≤ 239) = true
+      · simp only [c3, if_true] at hd
+        rcases r with _ | ⟨d1, _ | ⟨d2, r'⟩⟩
+        · simp at hd
+        · simp at hd
+        · simp only [] at hd
+          by_cases k : (isCont d1 && isCont d2 && (h != 224 || decide (160 ≤ d1)) && (h != 237 || sp || decide (d1 ≤ 159))) = true
+          · simp only [k, if_true, Option.map_eq_some_iff] at hd
+            obtain ⟨l'', h1, h2⟩ := hd
+            simp [isCont] at k c3
+            refine ⟨_, l'', h2.symm, Or.inr ⟨by omega, ?_, 2, by omega, by simp, by simpa using h1, ?_⟩⟩
+            · rcases k.1.2 with k2 | k2 <;> omega
+            · intro c hc; simp at hc; rcases hc with rfl | rfl <;> omega
+          · simp [k] at hd
+      · simp only [c3, Bool.false_eq_true, if_false] at hd
+        by_cases c4 : (240 ≤ h && h ≤ 244) = true
+        · simp only [c4, if_true] at hd
+          rcases r with _ | ⟨d1, _ | ⟨d2, _ | ⟨d3, r'⟩⟩⟩
+          · simp at hd
+          · simp at hd
+          · simp at hd
+          · simp only [] at hd
+            by_cases k : (isCont d1 && isCont d2 && isCont d3 && (h != 240 || decide (144 ≤ d1)) && (h != 244 || decide (d1 ≤ 143))) = true
+            · simp only [k, if_true, Option.map_eq_some_iff] at hd
+              obtain ⟨l'', h1, h2⟩ := hd
+              simp [isCont] at k c4
+              refine ⟨_, l'', h2.symm, Or.inr ⟨by omega, ?_, 3, by omega, by simp, by simpa using h1, ?_⟩⟩
+              · rcases k.1.2 with k2 | k2 <;> omega
+              · intro c hc; simp at hc; rcases hc with rfl | rfl | rfl <;> omega
+            · simp [k] at hd
+        · simp [c4] at hd
+
+theorem decodeG_nil (sp : Bool) : decodeG sp [] = some [] := by simp [decodeG]
+
+theorem bytesBreak_lt (x : Nat) (h : bytesBreak x = true) : x < 128 := by
+  simp [bytesBreak] at h; omega
+
+theorem bytesBreak_ge (x : Nat) (h : 128 ≤ x) : bytesBreak x = false := by
+  simp [bytesBreak]; omega
+
+/-- an ASCII character at the head of the decoded text was the first byte -/
+theorem decodeG_head (sp : Bool) (b b' : List Nat) (hd : decodeG sp b = some b') (x : Nat) (hx : x < 128)
+    (hh : b'.head? = some x) : b.head? = some x := by
+  cases b with
+  | nil => rw [decodeG_nil] at hd; cases hd; simp at hh
+  | cons h r =>
+    obtain ⟨cp, l'', rfl, hc⟩ := decodeG_step sp h r b' hd
+    simp at hh
+    subst hh
+    rcases hc with ⟨_, h2, _⟩ | ⟨_, h2, _⟩
+    · simp [h2]
+    · omega
+
+theorem decodeG_ne_nil (sp : Bool) (b b' : List Nat) (hd : decodeG sp b = some b') (hb : b ≠ []) : b' ≠ [] := by
+  cases b with
+  | nil => exact absurd rfl hb
+  | cons h r =>
+    obtain ⟨cp, l'', rfl, _⟩ := decodeG_step sp h r b' hd
+    simp
+
+/-- decoding keeps a break-free byte string break-free, and the "ends with LF" test unchanged -/
+theorem decodeG_noBrk_last (sp : Bool) (n : Nat) : ∀ l : List Nat, l.length ≤ n → ∀ l', decodeG sp l = some l' →
+    (NoBrk bytesBreak l → NoBrk bytesBreak l') ∧ endsNL l' = endsNL l := by
+  induction n with
+  | zero =>
+    intro l hl l' hd
+    have : l = [] := List.length_eq_zero_iff.mp (by omega)
+    subst this
+    rw [decodeG_nil] at hd; cases hd
+    exact ⟨fun h => h, rfl⟩
+  | succ n ih =>
+    intro l hl l' hd
+    cases l with
+    | nil => rw [decodeG_nil] at hd; cases hd; exact ⟨fun h => h, rfl⟩
+    | cons h r =>
+      obtain ⟨cp, l'', rfl, hc⟩ := decodeG_step sp h r l' hd
+      rcases hc with ⟨h1, rfl, h3⟩ | ⟨h1, h2, k, k1, k2, h3, h4⟩
+      · obtain ⟨i1, i2⟩ := ih r (by simp at hl; omega) l'' h3
+        refine ⟨?_, ?_⟩
+        · intro hn d hd'
+          rcases List.mem_cons.mp hd' with rfl | hd'
+          · exact hn _ (by simp)
+          · exact i1 (fun e he => hn e (by simp [he])) d hd'
+        · by_cases hr : r = []
+          · subst hr
+            rw [decodeG_nil] at h3; cases h3; rfl
+          · have hl'' : l'' ≠ [] := decodeG_ne_nil sp r l'' h3 hr
+            unfold endsNL
+            rw [show cp :: l'' = [cp] ++ l'' from rfl, lastIs_append _ _ _ hl'',
+              show cp :: r = [cp] ++ r from rfl, lastIs_append _ _ _ hr]
+            exact i2
+      · have hlen : (r.drop k).length ≤ n := by simp at hl ⊢; omega
+        obtain ⟨i1, i2⟩ := ih (r.drop k) hlen l'' h3
+        refine ⟨?_, ?_⟩
+        · intro hn d hd'
+          rcases List.mem_cons.mp hd' with rfl | hd'
+          · exact bytesBreak_ge _ h2
+          · exact i1 (fun e he => hn e (by simp [List.mem_of_mem_drop he])) d hd'
+        · have hsplit : h :: r = (h :: r.take k) ++ r.drop k := by simp
+          by_cases hr : r.drop k = []
+          · rw [hr, decodeG_nil] at h3; cases h3
+            have hall : ∀ c ∈ h :: r, isNL c = false := by
+              intro c hc
+              have : 128 ≤ c := by
+                rcases List.mem_cons.mp hc with rfl | hc
+                · exact h1
+                · have : r = r.take k := by
+                    have := List.take_append_drop k r
+                    rw [hr, List.append_nil] at this; exact this.symm
+                  rw [this] at hc; exact h4 c hc
+              simp [isNL]; omega
+            unfold endsNL
+            rw [lastIs_false_of_all _ _ hall]
+            simp [lastIs, isNL]; omega
+          · have hl'' : l'' ≠ [] := decodeG_ne_nil sp _ l'' h3 hr
+            unfold endsNL
+            rw [show cp :: l'' = [cp] ++ l'' from rfl, lastIs_append _ _ _ hl'', hsplit,
+              lastIs_append _ _ _ hr]
+            exact i2
+
+/-- a break-free line followed by a break character is the first line of the split -/
+theorem aux_line_brk (brk : Nat → Bool) (x : Nat) (hx : brk x = true) (l R : List Nat) (hl : NoBrk brk l) :
+    splitlinesAux brk false (l ++ x :: R) = l :: splitlinesAux brk (x == 13) R := by
+  induction l with
+  | nil =>
+    simp only [List.nil_append]
+    rw [aux_cons]
+    simp [hx]
+  | cons c cs ih =>
+    have hc : brk c = false := hl c (by simp)
+    simp only [List.cons_append]
+    rw [aux_cons, ih (fun d hd => hl d (by simp [hd]))]
+    simp [hc, consHead]
+
+theorem glue_eq_some (x : Nat) (a b : Option (List Nat)) (t : List Nat) (h : glue x a b = some t) :
+    ∃ a' b', a = some a' ∧ b = some b' ∧ t = a' ++ x :: b' := by
+  cases a <;> cases b <;> simp [glue] at h
+  exact ⟨_, _, rfl, rfl, h.symm⟩
+
+/-- DECODING COMMUTES WITH SPLITTING: the lines of the bytes, each decoded, are the lines of the
+    decoded text -/
+theorem decode_lines (sp : Bool) (n : Nat) : ∀ s : List Nat, s.length ≤ n → ∀ (f : Bool) (t : List Nat),
+    decodeG sp s = some t →
+    (splitlinesAux bytesBreak f s).map (decodeG sp) = (splitlinesAux bytesBreak f t).map some := by
+  induction n with
+  | zero =>
+    intro s hs f t hd
+    have : s = [] := List.length_eq_zero_iff.mp (by omega)
+    subst this
+    rw [decodeG_nil] at hd; cases hd
+    simp [aux_nil]
+  | succ n ih =>
+    intro s hs f t hd
+    have key : (splitlinesAux bytesBreak false s).map (decodeG sp) =
+        (splitlinesAux bytesBreak false t).map some := by
+      cases hsp : splitlinesAux bytesBreak false s with
+      | nil =>
+        have hs0 : s = [] := by
+          by_cases hs0 : s = []
+          · exact hs0
+          · exact absurd hsp (aux_ne_nil _ s hs0)
+        subst hs0
+        rw [decodeG_nil] at hd; cases hd
+        simp [aux_nil]
+      | cons l0 rest =>
+        have hn0 := (aux_first bytesBreak s l0 rest hsp).1
+        rcases aux_first_decomp bytesBreak s l0 rest hsp with ⟨e1, e2⟩ | ⟨x, b2, e1, e2, e3⟩
+        · subst e1 e2
+          have hsne : s ≠ [] := by intro h; subst h; simp [aux_nil] at hsp
+          have htne := decodeG_ne_nil sp s t hd hsne
+          have hnt := (decodeG_noBrk_last sp s.length s (Nat.le_refl _) t hd).1 hn0
+          rw [aux_noBrk bytesBreak bytesBreak_10 t htne hnt false]
+          simp [hd]
+        · have hxlt := bytesBreak_lt x e2
+          rw [e1, decodeG_split sp l0.length l0 (Nat.le_refl _) x b2 hxlt] at hd
+          obtain ⟨l0', b2', d1, d2, rfl⟩ := glue_eq_some _ _ _ _ hd
+          have hnt := (decodeG_noBrk_last sp l0.length l0 (Nat.le_refl _) l0' d1).1 hn0
+          rw [aux_line_brk bytesBreak x e2 l0' b2' hnt, e3]
+          have hlen : b2.length ≤ n := by
+            have := congrArg List.length e1
+            simp at this
+            omega
+          simp [d1, ih b2 hlen (x == 13) b2' d2]
+    cases s with
+    | nil =>
+      rw [decodeG_nil] at hd; cases hd
+      simp [aux_nil]
+    | cons c cs =>
+      by_cases h1 : (f && c == 10) = true
+      · have hc : c = 10 := by simp at h1; exact h1.2
+        have hf : f = true := by simp at h1; exact h1.1
+        subst hc hf
+        rw [decodeG_ascii_cons sp 10 (by decide)] at hd
+        simp only [Option.map_eq_some_iff] at hd
+        obtain ⟨t', d1, rfl⟩ := hd
+        rw [aux_cons, aux_cons]
+        simp only [Bool.true_and, beq_self_eq_true, if_true]
+        exact ih cs (by simp at hs; omega) false t' d1
+      · have h1' : (f && c == 10) = false := by simpa using h1
+        have e1 : splitlinesAux bytesBreak f (c :: cs) = splitlinesAux bytesBreak false (c :: cs) := by
+          rw [aux_cons, aux_cons]; simp [h1']
+        have e2 : splitlinesAux bytesBreak f t = splitlinesAux bytesBreak false t := by
+          cases f with
+          | false => rfl
+          | true =>
+            apply aux_flag_irrel
+            intro hh
+            have := decodeG_head sp (c :: cs) t hd 10 (by decide) hh
+            simp at this
+            simp [this] at h1'
+        rw [e1, e2]
+        exact key
+
+/-! ### Part I: the per-call outcomes of `next()` -/
+
+theorem outcomeOf_rel (ws : Nat → Bool) (parse : List Nat → Except ε α) (ig : Bool) (x y : List Nat) (h : Rel x y) :
+    outcomeOf ws parse ig x = outcomeOf ws parse ig y := by
+  simp [outcomeOf, lineNorm_rel ws x y h]
+
+theorem outcomeOf_nil (ws : Nat → Bool) (parse : List Nat → Except ε α) (ig : Bool) : outcomeOf ws parse ig [] = none := by
+  simp [outcomeOf, lineNorm_nil ws]
+
+theorem filterMap_relG {β : Type} (g : List Nat → Option β) (hg : ∀ x y, Rel x y → g x = g y)
+    (xs ys : List (List Nat)) (h : RelL xs ys) : xs.filterMap g = ys.filterMap g := by
+  induction h with
+  | nil => rfl
+  | cons hxy _ ih => simp [List.filterMap_cons, hg _ _ hxy, ih]
+
+theorem filterMap_fileLinesB'G {β : Type} (g : List Nat → Option β) (hg0 : g [] = none) (c : List Nat) :
+    (fileLinesB' c).filterMap g = (fileLinesB c).filterMap g := by
+  unfold fileLinesB'
+  split <;> simp [List.filterMap_append, hg0]
+
+theorem filterMap_linesOfG {β : Type} (g : List Nat → Option β) (hg0 : g [] = none) (c : List Nat) :
+    (linesOf c).filterMap g = (bytesSplitlines c).filterMap g := by
+  unfold linesOf
+  split <;> simp [List.filterMap_append, hg0]
+
+theorem consume_eq_untilError (ws : Nat → Bool) (parse : List Nat → Except ε α) (ig : Bool) (ls : List (List Nat)) :
+    consume ws parse ig ls = untilError (outcomes ws parse ig ls) := by
+  induction ls with
+  | nil => simp [consume, outcomes, untilError]
+  | cons l ls ih =>
+    rw [consume]
+    unfold outcomes at ih ⊢
+    by_cases hb : lineNorm ws l = []
+    · simp [hb, ih, outcomeOf]
+    · cases hp : parse (lineNorm ws l) with
+      | ok v => simp [hb, hp, ih, outcomeOf, untilError]
+      | error e =>
+        cases ig with
+        | true => simp [hb, hp, ih, outcomeOf]
+        | false => simp [hb, hp, outcomeOf, untilError]
+
+/-! ### Part J: `cur_byte_pos` in forward mode -/
+
+theorem consumePos_length (ws : Nat → Bool) (parse : List Nat → Except ε α) (ig : Bool) (p : Nat) (ls : List (List Nat)) :
+    (consumePos ws parse ig p ls).length = (consume ws parse ig ls).1.length := by
+  induction ls generalizing p with
+  | nil => simp [consumePos, consume]
+  | cons l ls ih =>
+    rw [consumePos, consume]
+    by_cases hb : lineNorm ws l = []
+    · simp [hb, ih]
+    · cases hp : parse (lineNorm ws l) with
+      | ok v => simp [hb, ih]
+      | error e => cases ig <;> simp [hb, ih]
+
+/-- first line of a binary file and the rest -/
+theorem fileLinesB_decomp (s : List Nat) (hs : s ≠ []) :
+    ∃ l1 s', fileLinesB s = l1 :: fileLinesB s' ∧ s = l1 ++ s' ∧ l1 ≠ [] ∧ (endsNL l1 = true ∨ s' = []) := by
+  induction s with
+  | nil => exact absurd rfl hs
+  | cons c cs ih =>
+    by_cases hc : c = 10
+    · subst hc
+      exact ⟨[10], cs, by simp [fileLinesB], rfl, by simp, Or.inl (by decide)⟩
+    · by_cases hcs : cs = []
+      · subst hcs
+        exact ⟨[c], [], by simp [fileLinesB, hc, consHead], rfl, by simp, Or.inr rfl⟩
+      · obtain ⟨l1, s', h1, h2, h3, h4⟩ := ih hcs
+        refine ⟨c :: l1, s', ?_, by rw [h2]; rfl, by simp, ?_⟩
+        · rw [fileLinesB]; simp [hc, h1, consHead]
+        · rcases h4 with h4 | h4
+          · left
+            unfold endsNL at h4 ⊢
+            rw [show c :: l1 = [c] ++ l1 from rfl, lastIs_append _ _ _ h3]; exact h4
+          · exact Or.inr h4
+
+theorem fileLinesB_nil : fileLinesB [] = [] := by simp [fileLinesB]
+
+/-- positions reported for the lines of `s`, which starts at offset `pre.length` of `pre ++ s`:
+    each lies after the start, within the file, at the end of a line -/
+theorem consumePos_spec (ws : Nat → Bool) (parse : List Nat → Except ε α) (ig : Bool) (n : Nat) :
+    ∀ (pre s : List Nat), s.length ≤ n →
+      List.Pairwise (· < ·) (consumePos ws parse ig pre.length (fileLinesB s)) ∧
+      ∀ q ∈ consumePos ws parse ig pre.length (fileLinesB s),
+        pre.length < q ∧ q ≤ (pre ++ s).length ∧
+        (q = (pre ++ s).length ∨ endsNL ((pre ++ s).take q) = true) := by
+  induction n with
+  | zero =>
+    intro pre s hs
+    have : s = [] := List.length_eq_zero_iff.mp (by omega)
+    subst this
+    simp [fileLinesB_nil, consumePos]
+  | succ n ih =>
+    intro pre s hs
+    by_cases hs0 : s = []
+    · subst hs0; simp [fileLinesB_nil, consumePos]
+    · obtain ⟨l1, s', h1, h2, h3, h4⟩ := fileLinesB_decomp s hs0
+      have hl1 : 0 < l1.length := List.length_pos_iff.mpr h3
+      have hlen : s'.length ≤ n := by
+        have := congrArg List.length h2; simp at this; omega
+      obtain ⟨i1, i2⟩ := ih (pre ++ l1) s' hlen
+      have hpl : (pre ++ l1).length = pre.length + l1.length := by simp
+      rw [hpl] at i1 i2
+      have hcat : pre ++ l1 ++ s' = pre ++ s := by rw [h2]; simp
+      rw [hcat] at i2
+      -- the position right after the first line
+      have hq0 : pre.length < pre.length + l1.length ∧ pre.length + l1.length ≤ (pre ++ s).length ∧
+          (pre.length + l1.length = (pre ++ s).length ∨
+            endsNL ((pre ++ s).take (pre.length + l1.length)) = true) := by
+        refine ⟨by omega, by rw [h2]; simp, ?_⟩
+        rcases h4 with h4 | h4
+        · right
+          have : (pre ++ s).take (pre.length + l1.length) = pre ++ l1 := by
+            rw [← hcat, ← hpl, List.take_left']
+            rfl
+          rw [this]
+          unfold endsNL at h4 ⊢
+          rw [lastIs_append _ _ _ h3]; exact h4
+        · left; rw [h2, h4]; simp
+      have tail_ok : ∀ q ∈ consumePos ws parse ig (pre.length + l1.length) (fileLinesB s'),
+          pre.length < q ∧ q ≤ (pre ++ s).length ∧
+          (q = (pre ++ s).length ∨ endsNL ((pre ++ s).take q) = true) := by
+        intro q hq
+        obtain ⟨a, b, c⟩ := i2 q hq
+        exact ⟨by omega, b, c⟩
+      rw [h1, consumePos]
+      by_cases hb : lineNorm ws l1 = []
+      · simp only [hb, if_true]
+        exact ⟨i1, tail_ok⟩
+      · simp only [hb, if_false]
+        cases hp : parse (lineNorm ws l1) with
+        | ok v =>
+          simp only []
+          refine ⟨List.pairwise_cons.mpr ⟨fun q hq => (i2 q hq).1, i1⟩, ?_⟩
+          intro q hq
+          rcases List.mem_cons.mp hq with rfl | hq
+          · exact hq0
+          · exact tail_ok q hq
+        | error e =>
+          simp only []
+          cases ig with
+          | true => simp only [if_true]; exact ⟨i1, tail_ok⟩
+          | false => simp
+
+/-! ### Part K: the separated lines re-join to the content -/
+
+theorem joinWith_consHead (sep : List Nat) (c : Nat) (x : List (List Nat)) (hx : x ≠ []) :
+    joinWith sep (consHead c x) = c :: joinWith sep x := by
+  match x, hx with
+  | [l], _ => simp [consHead, joinWith]
+  | l :: l' :: ls, _ => simp [consHead, joinWith]
+
+theorem sepLines_ne_nil (c : List Nat) : sepLines c ≠ [] := by
+  induction c using sepLines.induct with
+  | case1 => simp [sepLines]
+  | case2 => simp [sepLines]
+  | case3 c h => simp [sepLines, h]
+  | case4 c d cs h _ => simp [sepLines, h]
+  | case5 d cs _ _ => simp [sepLines]
+  | case6 c d cs h1 h2 _ => simp [sepLines, h1, h2]; exact consHead_ne_nil _ _
+
+/-- nothing lost, nothing invented: for a content without CR the LF-separated lines, joined by LF
+    again, are the content -/
+theorem sepLines_rejoin (c : List Nat) (h : ∀ x ∈ c, x ≠ 13) : joinWith [10] (sepLines c) = c := by
+  induction c using sepLines.induct with
+  | case1 => simp [sepLines, joinWith]
+  | case2 => simp [sepLines, joinWith]
+  | case3 c hc => simp [sepLines, hc, joinWith]
+  | case4 c d cs hcd _ => exact absurd hcd.1 (h c (by simp))
+  | case5 d cs _ ih =>
+    have ih := ih (fun x hx => h x (by simp [hx]))
+    cases hs : sepLines (d :: cs) with
+    | nil => exact absurd hs (sepLines_ne_nil _)
+    | cons l ls =>
+      rw [hs] at ih
+      simp [sepLines, hs, joinWith, ih]
+  | case6 c d cs hcd h10 ih =>
+    have ih := ih (fun x hx => h x (by simp [hx]))
+    simp only [sepLines, hcd, h10, if_false]
+    rw [joinWith_consHead _ _ _ (sepLines_ne_nil _), ih]
+
+theorem noLoneCR_of_noCR (c : List Nat) (h : ∀ x ∈ c, x ≠ 13) : noLoneCR c = true := by
+  induction c using noLoneCR.induct with
+  | case1 => rfl
+  | case2 c => simpa [noLoneCR] using h c (by simp)
+  | case3 c d cs ih =>
+    have h1 : c ≠ 13 := h c (by simp)
+    simp [noLoneCR, h1, ih (fun x hx => h x (by simp [hx]))]
+
+theorem firstBreak_none (s : List Nat) (h : firstBreak s = none) : ∀ x ∈ s, bytesBreak x = false := by
+  induction s with
+  | nil => intro x hx; cases hx
+  | cons c cs ih =>
+    rw [firstBreak] at h
+    by_cases hc : bytesBreak c = true
+    · simp [hc] at h
+    · have hc' : bytesBreak c = false := by simpa using hc
+      simp only [hc', Bool.false_eq_true, if_false] at h
+      cases hj : firstBreak cs with
+      | some j => rw [hj] at h; simp at h
+      | none =>
+        intro x hx
+        rcases List.mem_cons.mp hx with rfl | hx
+        · exact hc'
+        · exact ih hj x hx
+
+/-! ### Part L: single-byte codecs (latin-1, cp1252 …) commute with the split -/
+
+theorem consHead_map (g : Nat → Nat) (c : Nat) (x : List (List Nat)) :
+    (consHead c x).map (·.map g) = consHead (g c) (x.map (·.map g)) := by
+  cases x <;> simp [consHead]
+
+/-- a character-by-character decoding `g` that keeps LF, CR and "is a break" commutes with splitlines -/
+theorem aux_map (brk : Nat → Bool) (g : Nat → Nat) (hb : ∀ c, brk (g c) = brk c)
+    (h10 : ∀ c, (g c == 10) = (c == 10)) (h13 : ∀ c, (g c == 13) = (c == 13)) (f : Bool) (s : List Nat) :
+    splitlinesAux brk f (s.map g) = (splitlinesAux brk f s).map (·.map g) := by
+  induction s generalizing f with
+  | nil => simp [aux_nil]
+  | cons c cs ih =>
+    simp only [List.map_cons]
+    rw [aux_cons, aux_cons, h10, h13, hb]
+    by_cases h1 : (f && c == 10) = true
+    · simp only [h1, if_true]; exact ih false
+    · have h1' : (f && c == 10) = false := by simpa using h1
+      simp only [h1', Bool.false_eq_true, if_false]
+      by_cases hc : brk c = true
+      · simp only [hc, if_true, List.map_cons, List.map_nil]
+        rw [ih]
+      · have hc' : brk c = false := by simpa using hc
+        simp only [hc', Bool.false_eq_true, if_false]
+        rw [ih, consHead_map]
+
+theorem lastIs_map (p : Nat → Bool) (g : Nat → Nat) (hp : ∀ c, p (g c) = p c) (l : List Nat) :
+    lastIs p (l.map g) = lastIs p l := by
+  induction l with
+  | nil => rfl
+  | cons c cs ih =>
+    cases cs with
+    | nil => simp [lastIs, hp]
+    | cons d ds =>
+      simp only [List.map_cons] at ih ⊢
+      have e1 : lastIs p (g c :: g d :: List.map g ds) = lastIs p (g d :: List.map g ds) := by
+        simp [lastIs]
+      have e2 : lastIs p (c :: d :: ds) = lastIs p (d :: ds) := by
+        simp [lastIs]
+      rw [e1, e2]; exact ih
 
 end C19
